@@ -1267,8 +1267,9 @@ func (g *gen) paramValue(k string) string {
 		return ParamJSON([]time.Duration{time.Minute, 5 * time.Minute, time.Hour}[r.Intn(3)])
 	case "pos/MaxValidators":
 		if r.Chance(0.25) {
-			// far more seats than candidates, in numbers whose low 16 or 32 bits are small
-			return ParamJSON([]uint64{65536, 65537, 65538, 131072, 4294967297, 1 << 40}[r.Intn(6)])
+			// far more seats than candidates, in numbers whose low 16 bits are small (not beyond: the staked-validators
+			// query allocates MaxValidators records at once - observation O11 - and 2^32 of them end the process)
+			return ParamJSON([]uint64{65536, 65537, 65538, 131072}[r.Intn(4)])
 		}
 		return ParamJSON(uint64(r.Range(1, 6)))
 	case "auth/MaxMemoCharacters":
